@@ -179,7 +179,8 @@ def job_family(args):
                 continue
             ex_pt, ok = ex, True
             for v_, (op_, lit_) in region.items():
-                if v_ not in ('xi1', 'xi2', 'c0', 'c1') or not (-1 <= lit_ <= 1):
+                # inside the domain [-1, 1] the region must be a single boundary point: x <= -1, x >= 1 or x == +-1
+                if v_ not in ('xi1', 'xi2') or (op_, lit_) not in (('<=', -1), ('==', -1), ('>=', 1), ('==', 1)):
                     ok = False
                 ex_pt = ex_pt.subs(v_, Poly.const(lit_)) if v_ in ex_pt.vars() else ex_pt
                 pe = pe.subs(v_, Poly.const(lit_)) if v_ in pe.vars() else pe
